@@ -26,7 +26,8 @@ def run(chk):
         "the isometry; update_env_ is dominated by the isometry-creating call; every key memoised in env.F is unified with the "
         "patterns popped by that class's clear_site_; the reported energy is defined by env.measure() after the sweep of the "
         "same iteration; DMRG passes normalize=True and canonises its input. Variational/monotonicity claims are numerical "
-        "and not decided.")
+        "and not decided."
+        ' Conjugation typing of every contraction operand of the effective operators and environment updates (origin BRA/KET/OP/INPUT, parity flipped by conj()/.H/vdot): Heff is linear in its input and sesquilinear in (bra, ket); projection penalties are p|X><X|; eigs combines its orthonormal basis started from v0/|v0|.')
     chk.trusted_base = ["python ast parser", "CFG builder sa/core/cfg.py", "exact polynomial arithmetic sa/core/poly.py"]
     chk.rule("O1", "every sweep-step path refreshes the environment after, and at the site of, the new isometry", floor=20)
     chk.rule("O2", "every such path invalidates the environments of the written sites first; memo keys are all cleared", floor=12)
